@@ -45,10 +45,12 @@ def model_phase(c, tier):
 
 
 def trace_phase(c, tier, extra_cases, corrupt=0):
-    n, shards = (700, 16) if tier == "quick" else (25000, 16)
+    # thorough: events carry whole sample years of both expressions (up to 100 kB each): many small shards keep every TLC's
+    # heap below 3 GB and at most 14 of them run at once
+    n, shards = (700, 16) if tier == "quick" else (12000, 96)
     path = os.path.join(vlib.WORK, "%s_trace.ndjson" % c.pid.lower())
     # + the rule-mix family (closed rule x span passing midnight x fallback) derived by TLC from the MC_DayEval alphabet
-    _, mix = common.rule_mix_cases(c, 25 if tier == "quick" else 3)
+    _, mix = common.rule_mix_cases(c, 25 if tier == "quick" else 6)
     with open(extra_cases, "a") as f:
         for x in mix:
             f.write(json.dumps(x) + "\n")
@@ -57,7 +59,7 @@ def trace_phase(c, tier, extra_cases, corrupt=0):
         args += ["--corrupt", corrupt]
     vlib.ohv(args, stdout_path=path, timeout=7200)
     lines = open(path).read().splitlines()
-    res, mism, acc = vlib.validate_traces("Trace_Normalize", vlib.shard_lines(lines, shards, "%s_nz" % c.pid.lower()), heap="4g")
+    res, mism, acc = vlib.validate_traces("Trace_Normalize", vlib.shard_lines(lines, shards, "%s_nz" % c.pid.lower()), heap="3g", max_par=14)
     if acc != len(lines):
         raise vlib.ToolError("Trace_Normalize consumed %d of %d events" % (acc, len(lines)))
     by_id = {}
